@@ -625,6 +625,12 @@ func run(c *vf.Ctx) {
 			data = s.genuinePing(a.Type, y, x) // header key and seal of router 4, source address of router 5
 		}
 		pre()
+		if (a.Type == "disconnect-down" || a.Type == "disconnect-list") && ci%2 == 1 {
+			// the victim's gossip routes have run out but the cleaner (every ten minutes) has not come by yet: they are
+			// still in use, and a disconnect of X still only removes what mentions X
+			s.v.RoutingTable().VerifAge(4 * time.Hour)
+			note += " [the victim's gossip routes are past their expiry, not yet cleaned]"
+		}
 		s.ms.W.Inflight = nil
 		before := s.snapshot()
 		res, derr := s.ms.W.DeliverRaw(from, s.v, data)
